@@ -301,6 +301,96 @@ class System:
         return fails
 
 
+def reconfigure_work(chunk):
+    """one client whose configuration is changed by plain attribute assignment between requests (what its constructor
+    does): every request is sent as configured at that moment - user agent, configured URL for profile requests, user id"""
+    from ofxtools.Client import AUTH_PLACEHOLDER, OFXClient, StmtRq
+
+    from vf.core import private_xdg
+
+    private_xdg()
+    t = Tally()
+    net = F.Net()
+    net.install()
+    try:
+        for first, change, second in chunk:
+            d = cache_dir()
+            if d.exists():
+                shutil.rmtree(d)
+            net.log = []
+            urls = {"http://ofx.one.example/OFX": "http://svc.one.example/Svc", "http://ofx.two.example/Two/ofx": "http://svc.two.example/Svc2"}
+
+            def handler(ex):
+                rq = F.read_request(ex.body)
+                if rq["kind"] == "profile":
+                    return F.ok(F.profile_response(rq["trnuids"][0], datetime.datetime(2020, 1, 1, tzinfo=UTC), {"bank": urls[ex.url], "cc": urls[ex.url], "inv": urls[ex.url]}))
+                return F.ok(F.generic_response(rq["kind"], rq["trnuids"]))
+
+            net.handler = handler
+            cfg = {"url": "http://ofx.one.example/OFX", "useragent": "UA-one", "userid": "user-one", "org": "ONE", "fid": "1"}
+            cl = OFXClient(cfg["url"], userid=cfg["userid"], org=cfg["org"], fid=cfg["fid"], useragent=cfg["useragent"], bankid="123456789")
+            case = {"part": "reconfigure", "first": first, "change": change, "second": second}
+
+            def call(kind):
+                with warnings.catch_warnings():
+                    warnings.simplefilter("ignore")
+                    if kind == "profile":
+                        cl.request_profile().read()
+                    elif kind == "statements":
+                        cl.request_statements("pw-" + cfg["userid"], StmtRq(acctid="1", accttype="CHECKING")).read()
+                    elif kind == "statements-skip-profile":
+                        cl.request_statements("pw-" + cfg["userid"], StmtRq(acctid="1", accttype="CHECKING"), skip_profile=True).read()
+                    elif kind == "headers":
+                        cl.http_headers  # merely looking at what would be sent
+
+            t.count("evaluations")
+            try:
+                call(first)
+                if change == "useragent":
+                    cfg["useragent"] = cl.useragent = "UA-two/2.0"
+                elif change == "userid":
+                    cfg["userid"] = cl.userid = "user-two"
+                else:
+                    cfg.update(url="http://ofx.two.example/Two/ofx", org="TWO", fid="2")
+                    cl.url, cl.org, cl.fid = cfg["url"], cfg["org"], cfg["fid"]
+                n0 = len(net.log)
+                call(second)
+            except Exception as e:
+                t.fail(f"C14|reconfigured|{change}|raises-{type(e).__name__}", case, f"{type(e).__name__}: {str(e)[:200]}")
+                continue
+            sig = f"C14|reconfigured|{change}"
+            ok = True
+            for ex in net.log[n0:]:
+                rq = F.read_request(ex.body)
+                if ex.headers.get("user-agent") != cfg["useragent"]:
+                    t.fail(f"{sig}|wrong-user-agent", case, f"sent {ex.headers.get('user-agent')!r}, configured {cfg['useragent']!r}")
+                    ok = False
+                if rq["kind"] == "profile":
+                    if ex.url != cfg["url"]:
+                        t.fail(f"{sig}|profile-request-sent-to-wrong-url", case, f"{ex.url} != {cfg['url']}")
+                        ok = False
+                    if rq["sonrq"].get("USERID") != AUTH_PLACEHOLDER:
+                        t.fail(f"{sig}|profile-request-not-anonymous", case, str(rq["sonrq"].get("USERID")))
+                        ok = False
+                else:
+                    want = cfg["url"] if second == "statements-skip-profile" else urls[cfg["url"]]
+                    if ex.url != want:
+                        t.fail(f"{sig}|credentials-sent-to-wrong-url", case, f"{ex.url} != {want}")
+                        ok = False
+                    if rq["sonrq"].get("USERID") != cfg["userid"] or rq["sonrq"].get("USERPASS") != "pw-" + cfg["userid"]:
+                        t.fail(f"{sig}|wrong-credentials", case, str(rq["sonrq"].get("USERID")))
+                        ok = False
+                fi = rq["sonrq"].get("FI")
+                if fi is not None and dict(fi).get("ORG") != cfg["org"]:
+                    t.fail(f"{sig}|wrong-fi", case, str(fi))
+                    ok = False
+            if ok:
+                t.outcome("reconfigured-ok")
+    finally:
+        net.uninstall()
+    return t
+
+
 CONFIGS = [(adv, pol, pair) for adv in ("same", BANK_ONLY, "other-host", "split", "moving") for pol in ("none", "first", "every") for pair in ("same-server", "other-server")]
 
 
@@ -350,6 +440,8 @@ def run(ctx):
                     order.append(blocks[adv][(i + ctx.seed) % len(blocks[adv])])
         cfgs = list(dict.fromkeys(order))[:16]  # one system per core, every advertise variant at least three times
     tally = ctx.pmap(work, [(c, depth) for c in cfgs], chunk=1)
+    rjobs = [(a, ch, b) for a in ("profile", "statements", "statements-skip-profile", "headers") for ch in ("useragent", "userid", "institution") for b in ("profile", "statements", "statements-skip-profile")]
+    tally.merge(ctx.pmap(reconfigure_work, rjobs))
     md = tally.counts.pop("max_depth", 0)
     if tally.counts.get("states", 0) < 50 or tally.counts.get("transitions", 0) < 1000:
         vacuous(tally, f"vacuous: {tally.counts}")
@@ -376,6 +468,11 @@ def run(ctx):
 
 
 def replay(ctx, case):
+    if case.get("part") == "reconfigure":
+        t = reconfigure_work([(case["first"], case["change"], case["second"])])
+        for sig, (n, c, d) in sorted(t.fails.items()):
+            print(" ", sig, "|", d)
+        return bool(t.fails)
     from vf.core import private_xdg
 
     private_xdg()
